@@ -201,7 +201,7 @@ PROPS = {
     },
     "C07": {
         "level": "proof",
-        "lean_targets": ["LP.Props.C07"],
+        "lean_targets": ["LP.Props.C07", "LP.Props.C07Exact", "LP.Props.C07Inv"],
         "harnesses": [{"name": "h_alg", "quick": 400, "thorough": 8000}],
         "select": lambda t: t[1] == "alg",
         "nontrivial": lambda t, r: True,
@@ -209,12 +209,12 @@ PROPS = {
                 "points, rationals disguised as algebraic (q*x-p), dyadic neighbours at distance 2^-3..2^-33 of pool members, and results of "
                 "earlier operations (degree <= 4); add, sub, mul, div, neg, inv, pow 0-4, positive root 2-4, cmp (number, integer, dyadic, "
                 "rational), sgn, floor, ceiling, is_integer, is_rational + to_rational, to_double. Every line is non-trivial.",
-        "trusted_base": ["the eliminant of x+y, x*y, x^n is computed by the model as a Sylvester determinant (C04 reference); that it vanishes at the exact value is the classical resultant property, not formalised"],
+        "trusted_base": ["the line parser / printer of the driver (RawAlg.toZ builds the well-formed pairs the theorems assume: WF / WFs hold by construction); the harness's read-out of the C structs"],
         "assumptions": ["operands with deg f + deg g <= 7 (larger eliminants are skipped and counted)"],
     },
     "C08": {
         "level": "proof",
-        "lean_targets": ["LP.Props.C08"],
+        "lean_targets": ["LP.Props.C08", "LP.Props.C07Exact", "LP.Props.C07Inv"],
         "harnesses": [{"name": "h_value", "quick": 400, "thorough": 8000}],
         "select": lambda t: t[1] == "val",
         "nontrivial": lambda t, r: True,
@@ -223,7 +223,7 @@ PROPS = {
                 "+-infinity; cmp over all representation pairs, cmp_rational, sgn, add/sub/mul/div/neg/inv/pow incl. the defined infinite "
                 "cases, floor/ceiling/is_integer, is_rational + get_rational/num/den, get_value_between with all strictness patterns, "
                 "hash_approx of pairs biased to equal numbers in different representations. Every line is non-trivial.",
-        "trusted_base": ["as C07: the eliminant property of the Sylvester determinant is classical, not formalised"],
+        "trusted_base": ["as C07: driver parsing / value-to-model conversion (Driver/Value.lean) and the harness read-out; the table of infinite operands is the documented one, written by hand"],
         "assumptions": ["operands with deg f + deg g <= 7; undefined infinite combinations (inf-inf, 0*inf, inf/inf, x^0) are not generated"],
     },
     "C09": {
